@@ -20,7 +20,8 @@ TIERS = {
     "thorough": {"segments": 16000, "wall": 1500, "min_budget": 300},
 }
 SEGMENT_TIMEOUT = 600
-SAMPLE_MAXOPS = 10**9
+SAMPLE_MAXOPS = 10
+SAMPLE_TRUNCATE = True   # segments have hundreds of ops: evidence shows the head of the trace
 RULE = (
     "segment = one generated valid workspace (first built un-faulted: must be accepted) and, for each fault class of the "
     "statement, one injected fault at every applicable position (exhaustive per spec) plus sampled pairs and benign "
